@@ -16,6 +16,9 @@ CHECKS = {
     "C02": ("exploration", "runtime monitoring: inspection verdict vs. observed run outcome; same-run sys.monitoring node probe (context before/after every node) vs. reported per-node facts",
             "Configurations aimed at the key-flow/type-flow analysis (use-before-create, create-and-require in one node, delete-then-require, type change across context-only and pass-through nodes, sweep-published keys, shadowed defaults) plus generated pipelines are inspected+validated and then really run with exactly the reported required keys and with random supersets; a same-run sys.monitoring probe snapshots the context at every node entry/exit. Accepted-but-fails-on-flow, unreported created/suppressed keys, wrong parameter origins and differing unknown-parameter names are violations. Held = none on the executions observed.",
             "Cause of a run-time failure is classified by the reference model (tied to the real semantics by C01), never by message parsing. Deleting an absent key is a documented don't-care. Components that lie about their output type are excluded.", "DESIGN.md §4 C02"),
+    "C06": ("fault_enumeration", "runtime monitoring: offline trace checker (lifecycle automaton + registry-dispatched JSON-schema validation + cross-field checks) over traces of fault-injected runs; /proc/self/fd observer; sys.monitoring failpoints",
+            "Every generated base pipeline is run traced with a fault of every kind {processor exception, unresolvable parameter, type gate, undeclared write, construction error x2, KeyboardInterrupt-class abort} inserted at every position, rotating detail levels and file/directory output (full cross in thorough); thorough adds source-free failpoints (an exception injected at every line event inside node-processing code). The emitted JSONL is read the moment the call returns/raises and checked by an automaton, schema validation, ID/edge/status cross-checks, exception identity and an open-descriptor scan. Held = no malformed trace among the faulted runs observed.",
+            "Which node fails is taken from the reference model (C01). Faults inside the orchestrator's own emission code or the trace driver are outside the property's failure kinds.", "DESIGN.md §4 C06"),
 }
 
 NOT_BUILT_REASON = "check not implemented yet in this round (work in progress; see DESIGN.md §4 for the planned monitor)"
